@@ -117,18 +117,31 @@ def check_independence(order, use_matlab):
     return True
 
 
-def c13_independence(order: int, use_matlab: int) -> bool:
+def c13_independence(order: int) -> bool:
     """
     For every ordered non-empty subset of {ns::A, ns::B, ns::C} as the instantiation list: each instantiation's
-    projection, pybind block and MATLAB classdef equal those obtained from the singleton list; a second fresh
-    run is identical; the template's own tree is unchanged by instantiation.
-    pre: 0 <= order < NORD and 0 <= use_matlab <= 1
+    projection and pybind block equal those obtained from the singleton list; a second fresh run is identical; the
+    template's own tree is unchanged by instantiation.
+    pre: 0 <= order < NORD
     post: _
     """
-    order, use_matlab = pick(order, 0, NORD), pick(use_matlab, 0, 2)
+    order = pick(order, 0, NORD)
     with concrete():
-        ok = check_independence(order, use_matlab)
-    reached({"list": [INSTS[i] for i in ORDERS[order]], "matlab": use_matlab})
+        ok = check_independence(order, 0)
+    reached({"list": [INSTS[i] for i in ORDERS[order]]})
+    return ok
+
+
+def c13_independence_matlab(order: int) -> bool:
+    """
+    As c13_independence, also comparing the MATLAB classdef of each instantiation (ids replaced).
+    pre: 0 <= order < NORD
+    post: _
+    """
+    order = pick(order, 0, NORD)
+    with concrete():
+        ok = check_independence(order, 1)
+    reached({"list": [INSTS[i] for i in ORDERS[order]], "matlab": 1})
     return ok
 
 
@@ -181,7 +194,9 @@ def conds(tier):
     t = (lambda x, y: x) if q else (lambda x, y: y)
     M = "harness.c13"
     return [
-        xh.Cond(M, "c13_independence", t(240, 900), kind="shape-bounded", path_timeout=90, examples=["order=3, use_matlab=1", "order=14, use_matlab=0", "order=0, use_matlab=1"],
-                bounds="all 15 ordered non-empty subsets of a 3-element instantiation list, class + function template, pybind and MATLAB"),
+        xh.Cond(M, "c13_independence", t(300, 900), kind="shape-bounded", path_timeout=90, examples=["order=3", "order=14"],
+                bounds="all 15 ordered non-empty subsets of a 3-element instantiation list, class + function template, pybind"),
+        xh.Cond(M, "c13_independence_matlab", t(300, 900), kind="shape-bounded", path_timeout=90, examples=["order=3", "order=0"],
+                bounds="all 15 ordered non-empty subsets, pybind and MATLAB classdefs"),
         xh.Cond(M, "c13_alpha_rename", t(300, 1800), examples=["s='T'", "s='X9'", "s='V'"], bounds="all unused identifiers of length <= %d as the parameter name" % (2 if q else 3)),
     ]
